@@ -393,7 +393,12 @@ def check_c05(tier, seed, replay=None, selftest=False):
 @reg("C10")
 def check_c10(tier, seed, replay=None, selftest=False):
     def mk(rng, tier):
-        return merge_jobs(gen_mh.mh_jobs(rng, "murmur", 14 if tier == "quick" else 300), key=lambda n: n, driver="mh")
+        j = gen_mh.mh_jobs(rng, "murmur", 14 if tier == "quick" else 300)
+        # streams of 2^29 bytes and more (the bit length no longer fits 32 bits): quick = one rotating family + isal_
+        fams = gen_mh.MH_FAMS[:5]
+        for f in ([fams[seed % 5], "isal"] if tier == "quick" else gen_mh.MH_FAMS):
+            j["mhbig-murmur-%s" % f] = [gen_mh.mh_big_behaviour(rng, "murmur", f, rng.choice([1 << 29, (1 << 29) + 1500, (1 << 29) + 1024 * 77 + 1016]))]
+        return merge_jobs(j, key=lambda n: n, driver="mh")
     return mh_check("C10", tier, seed, replay, mk,
                     "as C05 for the stitched function with seeds {0, 1, 2^32-1, 2^63, 2^64-1, random}; TLC checks the mh_sha1 half against "
                     "MultiHash!MhDigest and the murmur half against MurmurHash3_x64_128 of the whole stream with both state words = seed")
